@@ -233,12 +233,17 @@ func convertHex(data interface{}) {
 			switch d[0].(type) {
 			case string:
 				for i, s := range d {
-					ch, err := chainhash.NewHashFromStr(s.(string))
-					if err == nil && len(s.(string)) == 64 {
+					str, ok := s.(string)
+					if !ok {
+						// heterogeneous array: leave the element as is
+						continue
+					}
+					ch, err := chainhash.NewHashFromStr(str)
+					if err == nil && len(str) == 64 {
 						d[i] = base64.StdEncoding.EncodeToString(ch.CloneBytes())
 						continue
 					}
-					decoded, err := hex.DecodeString(s.(string))
+					decoded, err := hex.DecodeString(str)
 					if err == nil {
 						d[i] = base64.StdEncoding.EncodeToString(decoded)
 					}
